@@ -117,6 +117,14 @@ def check_perm(case):
         for k2 in (-3, 1, 4):
             if P.shift_right(k).shift_right(k2) != P.shift_right(k + k2) or P.shift_up(k).shift_up(k2) != P.shift_up(k + k2):
                 return BAD("shift_not_action", {"k": k, "k2": k2})
+    # default and keyword forms of the shifts
+    if P.shift_right() != P.shift_right(1) or P.shift_left() != P.shift_right(-1) or P.shift_up() != P.shift_up(1) or P.shift_down() != P.shift_up(-1):
+        return BAD("shift_default_argument", {})
+    if P.shift_right(times=2) != P.shift_right(2) or P.shift_left(times=2) != P.shift_right(-2) or P.shift_up(times=2) != P.shift_up(2) or P.shift_down(times=2) != P.shift_up(-2):
+        return BAD("shift_keyword_argument", {})
+    big = 10 ** 6 + 1
+    if n and (P.shift_right(big) != P.shift_right(big % n) or P.shift_up(-big) != P.shift_up((-big) % n)):
+        return BAD("shift_large_argument", {})
     # ---- sum / skew decompositions
     for name, parts, assemble, indec, dec in (
         ("sum", P.sum_decomposition(), ref.direct_sum, ref.is_sum_decomposable, P.is_sum_decomposable()),
@@ -324,6 +332,10 @@ def shard_generated(acc, shard, nshards, n_perm, n_tuple, n_inf):
     engine.hyp_run(acc, "inflate", check_inflate, inflate_cases(), n_inf, shard)
 
 
+# coverage-guided variants of the structured generators (thorough tier, pv/fuzz/target.py hyp:<name>)
+FUZZ = {"tuple": ("tuple", tuple_cases), "inflate": ("inflate", inflate_cases)}
+
+
 def run(acc, tier):
     if tier == "quick":
         engine.pmap(acc, shard_perms, extra=(6,))
@@ -333,3 +345,4 @@ def run(acc, tier):
         engine.pmap(acc, shard_perms, extra=(7,))
         engine.pmap(acc, shard_pairs, extra=(5,))
         engine.pmap(acc, shard_generated, extra=(300, 3000, 3000))
+        engine.fuzz(acc, "hyp:inflate", CHECKS, 3000, max_len=2048)
